@@ -120,6 +120,55 @@ const EXTREME_BASE: i32 = i32::MIN;
 
 /// Histories over calendars holding the first / last representable dates (a calendar holding both
 /// spans 524 286 years, 25 MB): fewer and shorter than the ordinary histories.
+/// Calendars holding tens of thousands of dates (every day, or every day of some months, over 100-720 years; sizes
+/// bracketing 32 768 / 65 536 / 131 072 dates): count, iteration, membership at the ends, first_after across the
+/// whole span and a serialization round trip (S-C15-k sums the per-year counts in a `u16`).
+fn dense_large(ch: &mut Choices, case: &mut Case) -> Result<(), String> {
+    let years = [89i32, 90, 179, 180, 181, 359, 360, 720][ch.draw(8) as usize];
+    let first_year = [1900i32, 1, -400, 2000, -1000][ch.draw(5) as usize];
+    let months: &[u32] = [&[1u32, 2, 3, 4, 5, 6, 7, 8, 9, 10, 11, 12][..], &[1, 2][..], &[2, 7, 12][..]][ch.weighted(&[60, 20, 20])];
+    let mut cal = CompactCalendar::default();
+    let mut model: Vec<NaiveDate> = Vec::new();
+    let mut d = NaiveDate::from_ymd_opt(first_year, 1, 1).unwrap();
+    let end = NaiveDate::from_ymd_opt(first_year + years, 1, 1).unwrap();
+    while d < end {
+        if months.contains(&d.month()) {
+            cal.insert(d);
+            model.push(d);
+        }
+        d = d.succ_opt().unwrap();
+    }
+    case.key = format!("every day of months {months:?} of {years} years from {first_year}: {} dates", model.len());
+    case.units = model.len() as u64;
+    case.nontrivial = model.len() >= 65_536;
+    case.label(match model.len() {
+        0..=32_767 => "fewer_than_32768_dates",
+        32_768..=65_535 => "32768_to_65535_dates",
+        _ => "65536_dates_or_more",
+    });
+    if cal.count() as usize != model.len() {
+        return Err(format!("count() = {} but {} dates were inserted ({})", cal.count(), model.len(), case.key));
+    }
+    if cal.iter().count() != model.len() || !cal.iter().eq(model.iter().copied()) {
+        return Err(format!("iter() does not yield the {} inserted dates in order ({})", model.len(), case.key));
+    }
+    for probe in [model[0], model[model.len() - 1], model[model.len() / 2]] {
+        if !cal.contains(probe) {
+            return Err(format!("contains({probe}) is false ({})", case.key));
+        }
+    }
+    if cal.first_after(model[0].pred_opt().unwrap()) != Some(model[0]) || cal.first_after(model[model.len() - 1]).is_some() {
+        return Err(format!("first_after at the ends of the calendar is wrong ({})", case.key));
+    }
+    let mut bytes = Vec::new();
+    cal.serialize(&mut bytes).map_err(|e| format!("serialize failed: {e}"))?;
+    let back = CompactCalendar::deserialize(&mut bytes.as_slice()).map_err(|e| format!("deserialize failed: {e} ({})", case.key))?;
+    if back != cal || back.count() as usize != model.len() {
+        return Err(format!("the calendar read back differs or counts {} dates instead of {} ({})", back.count(), model.len(), case.key));
+    }
+    Ok(())
+}
+
 fn history_extremes(ch: &mut Choices, case: &mut Case) -> Result<(), String> {
     history_with(ch, case, EXTREME_BASE, 14)
 }
@@ -486,6 +535,15 @@ pub fn property() -> Property {
                 cases_quick: 40_000,
                 cases_thorough: 1_000_000,
                 max_choices: 420,
+            },
+            SubCheck {
+                name: "dense_large",
+                rule: "calendars holding every day (or every day of 2-3 months) of 89-720 years (up to 263 000 dates; sizes bracketing 32 768 / 65 536 / 131 072): count(), ordered iteration, membership and first_after at the ends, serialization round trip against the inserted list; non-trivial = 65 536 dates or more",
+                f: dense_large,
+                text_f: None,
+                cases_quick: 64,
+                cases_thorough: 512,
+                max_choices: 6,
             },
             SubCheck {
                 name: "history_extremes",
